@@ -1,10 +1,59 @@
 //! C22 — SystemVerilog translation preserves behaviour.
+//!
+//! Per generated case: a human-style SystemVerilog text inside the
+//! translator's subset (`c22_gen.rs`) → `veryl_translator::translate_str` as
+//! `cmd_translate.rs` calls it.  A reported unsupported construct puts the
+//! case outside the property's domain (counted).  Otherwise the produced
+//! Veryl must parse, analyse without errors (default `Metadata` plus the
+//! `clock_type` / `reset_type` matching the generated text) and emit; the
+//! original text and the re-emitted text are then simulated by `vsv` on the
+//! same generated stimulus and every output must agree after every cycle
+//! (on the bits that are known in the original's simulation).
+//!
+//! Shapes of confirmed findings never appear in the main search (the
+//! generator counts each suppressed opportunity); `finding-shapes` shows each
+//! of them at a low rate, and `reproducer` replays the listed reproducers.
 #[path = "c22_pipe.rs"]
 mod pipe;
+#[path = "c22_gen.rs"]
+mod svgen;
 
-use pipe::{BuildErr, ClockCfg, Stim};
-use vcore::Ctx;
-use vsv::{Bv, Sim};
+use pipe::{BuildErr, ClockCfg, PortSpec, Stim};
+use serde_json::{Value, json};
+use std::collections::{BTreeMap, BTreeSet};
+use std::sync::{Arc, Mutex};
+use svgen::Hz;
+use vcore::{CaseCfg, Ctx, Draw, Outcome, hash_str};
+use vsv::{Bit, Bv, Sim};
+
+/// Finding shapes shown by `finding-shapes` (each demonstrated against the
+/// real translator; reproducers under /verif/known/C22).
+const CONFIRMED: &[Hz] = &[
+    Hz::LtGt,
+    Hz::Cond,
+    Hz::Repl,
+    Hz::Ff,
+];
+
+#[derive(Default)]
+struct StatsInner {
+    translated: u64,
+    reported: u64,
+    reported_kinds: BTreeMap<String, u64>,
+    excluded: BTreeMap<String, u64>,
+    compared_bits: u64,
+    x_bits: u64,
+    lively: u64,
+    warnings: BTreeMap<String, u64>,
+    vsv_orig: BTreeMap<String, u64>,
+    vsv_emitted: BTreeMap<String, u64>,
+    port_signedness_differs: u64,
+}
+
+#[derive(Default)]
+struct Stats {
+    inner: Mutex<StatsInner>,
+}
 
 fn splitmix(s: &mut u64) -> u64 {
     *s = s.wrapping_add(0x9E3779B97F4A7C15);
@@ -13,6 +62,314 @@ fn splitmix(s: &mut u64) -> u64 {
     z = (z ^ (z >> 27)).wrapping_mul(0x94D049BB133111EB);
     z ^ (z >> 31)
 }
+
+fn words_to_bv(words: &[u64], w: usize) -> Bv {
+    let bits: Vec<Bit> = (0..w).map(|i| Bit::from_bool((words[i / 64] >> (i % 64)) & 1 == 1)).collect();
+    Bv::new(bits, false)
+}
+
+/// Where a case stopped.
+enum Stage {
+    /// sv-parser rejected the text
+    SvParse(String),
+    Reported(Vec<String>),
+    VerylParse(String),
+    Analyze(Vec<(String, String)>),
+    OrigUnreadable(vsv::Unsupported),
+    EmittedUnreadable(vsv::Unsupported),
+    Ports(String),
+    Mismatch(String),
+    Ok(pipe::CmpStats),
+}
+
+struct Run {
+    stage: Stage,
+    veryl: String,
+    emitted: String,
+    warnings: Vec<(String, String)>,
+    stim_text: Vec<String>,
+    sign_diff: bool,
+}
+
+fn port_sig(v: &[PortSpec]) -> Vec<String> {
+    v.iter().map(|p| format!("{} {}[{}]", if p.input { "input" } else { "output" }, p.name, p.width)).collect()
+}
+
+/// The whole pipeline on one text.  `draw_value(width)` supplies stimulus values.
+fn pipeline(sv: &str, top: &str, cfg: &ClockCfg, cycles: usize, draw_value: &mut dyn FnMut(usize) -> Bv, midrun_reset: &mut dyn FnMut() -> bool) -> Run {
+    let mut run = Run {
+        stage: Stage::SvParse(String::new()),
+        veryl: String::new(),
+        emitted: String::new(),
+        warnings: vec![],
+        stim_text: vec![],
+        sign_diff: false,
+    };
+    let t = match pipe::translate(sv) {
+        Ok(t) => t,
+        Err(e) => {
+            run.stage = Stage::SvParse(e);
+            return run;
+        }
+    };
+    run.veryl = t.veryl.clone();
+    if !t.unsupported.is_empty() {
+        run.stage = Stage::Reported(t.unsupported);
+        return run;
+    }
+    let b = match pipe::build(&t.veryl, &cfg.metadata()) {
+        Ok(b) => b,
+        Err(BuildErr::Parse(e)) => {
+            run.stage = Stage::VerylParse(e);
+            return run;
+        }
+        Err(BuildErr::Analyze(e)) => {
+            run.stage = Stage::Analyze(e);
+            return run;
+        }
+    };
+    run.emitted = b.sv.clone();
+    run.warnings = b.warnings;
+    let mut so = match Sim::from_sv(&[sv], top) {
+        Ok(s) => s,
+        Err(u) => {
+            run.stage = Stage::OrigUnreadable(u);
+            return run;
+        }
+    };
+    let mut se = match Sim::from_sv(&[&b.sv], &format!("prj_{top}")) {
+        Ok(s) => s,
+        Err(u) => {
+            run.stage = Stage::EmittedUnreadable(u);
+            return run;
+        }
+    };
+    let po = pipe::port_specs(&so);
+    let pe = pipe::port_specs(&se);
+    if port_sig(&po) != port_sig(&pe) {
+        run.stage = Stage::Ports(format!("original: {:?}\nre-emitted: {:?}", port_sig(&po), port_sig(&pe)));
+        return run;
+    }
+    run.sign_diff = po.iter().zip(&pe).any(|(a, b)| a.signed != b.signed);
+    let mut stim = Stim::default();
+    for p in &po {
+        let is_pin = cfg.clock.as_ref().is_some_and(|c| c.0 == p.name) || cfg.reset.as_ref().is_some_and(|c| c.0 == p.name);
+        if is_pin {
+            continue;
+        }
+        if p.input {
+            stim.inputs.push(p.clone());
+        } else {
+            stim.outputs.push(p.clone());
+        }
+    }
+    for i in 0..cycles {
+        let vals: Vec<Bv> = stim.inputs.iter().map(|p| draw_value(p.width)).collect();
+        let reset = cfg.reset.is_some() && (i < 2 || midrun_reset());
+        run.stim_text.push(format!(
+            "{}{}",
+            if reset { "reset " } else { "" },
+            stim.inputs.iter().zip(&vals).map(|(p, v)| format!("{}={}", p.name, v)).collect::<Vec<_>>().join(" ")
+        ));
+        stim.steps.push((reset, vals));
+    }
+    let pins = cfg.pins();
+    let ro = match pipe::run_sim(&mut so, &pins, &stim) {
+        Ok(r) => r,
+        Err(u) => {
+            run.stage = Stage::OrigUnreadable(u);
+            return run;
+        }
+    };
+    let re = match pipe::run_sim(&mut se, &pins, &stim) {
+        Ok(r) => r,
+        Err(u) => {
+            run.stage = Stage::EmittedUnreadable(u);
+            return run;
+        }
+    };
+    let (st, mm) = pipe::compare(&ro, &re, &stim.outputs);
+    if let Some(m) = mm {
+        run.stage = Stage::Mismatch(format!(
+            "output {} after cycle {}: original {} , re-emitted {}\ninputs of that cycle: {}",
+            m.output, m.step, m.orig, m.emitted, run.stim_text[m.step]
+        ));
+        return run;
+    }
+    run.stage = Stage::Ok(st);
+    run
+}
+
+fn first_line(s: &str) -> String {
+    s.lines().find(|l| !l.trim().is_empty()).unwrap_or("").trim().chars().take(160).collect()
+}
+
+/// (stage name, detail for unclassified signatures, human message) of a failing run.
+fn failure_of(run: &Run) -> Option<(&'static str, String, String)> {
+    match &run.stage {
+        Stage::VerylParse(e) => Some((
+            "invalid-veryl",
+            "parse-error".into(),
+            format!("the translator reported no unsupported construct, but the produced Veryl does not parse:\n{}", e.lines().take(14).collect::<Vec<_>>().join("\n")),
+        )),
+        Stage::Analyze(errs) => Some((
+            "analysis-error",
+            errs.first().map(|e| e.0.clone()).unwrap_or_default(),
+            format!(
+                "the translator reported no unsupported construct, but the analyzer rejects the produced Veryl:\n{}",
+                errs.iter().take(6).map(|(k, m)| format!("[{k}] {}", first_line(m))).collect::<Vec<_>>().join("\n")
+            ),
+        )),
+        Stage::Ports(p) => Some(("ports", "differ".into(), format!("the re-emitted module has other ports than the original:\n{p}"))),
+        Stage::Mismatch(m) => Some(("behaviour", "trace".into(), format!("the re-emitted SystemVerilog behaves differently from the original:\n{m}"))),
+        _ => None,
+    }
+}
+
+fn input_json(sv: &str, top: &str, cfg: &ClockCfg, run: &Run) -> Value {
+    json!({
+        "sv": sv,
+        "top": top,
+        "veryl_toml": cfg.toml(),
+        "clock": cfg.clock,
+        "reset": cfg.reset,
+        "veryl": run.veryl,
+        "emitted_sv": run.emitted,
+        "stimulus": run.stim_text,
+    })
+}
+
+fn one_case(d: &mut Draw, shapes: bool, cycles: usize, stats: &Stats) -> Outcome {
+    let mut allow = BTreeSet::new();
+    if shapes {
+        allow.insert(*d.pick(CONFIRMED));
+    }
+    let case = svgen::gen_case(d, &allow);
+    {
+        let mut g = stats.inner.lock().unwrap();
+        for (k, n) in &case.excluded {
+            *g.excluded.entry((*k).to_string()).or_default() += *n as u64;
+        }
+    }
+    let run = {
+        let dd = std::cell::RefCell::new(&mut *d);
+        let mut dv = |w: usize| {
+            let mut d = dd.borrow_mut();
+            let words = d.corner_bits(w);
+            words_to_bv(&words, w)
+        };
+        let mut mr = || dd.borrow_mut().chance(1, 12);
+        pipeline(&case.sv, &case.top, &case.clock, cycles, &mut dv, &mut mr)
+    };
+    {
+        let mut g = stats.inner.lock().unwrap();
+        match &run.stage {
+            Stage::SvParse(_) => {}
+            Stage::Reported(kinds) => {
+                g.translated += 1;
+                g.reported += 1;
+                for k in kinds.iter().collect::<BTreeSet<_>>() {
+                    *g.reported_kinds.entry(k.clone()).or_default() += 1;
+                }
+            }
+            _ => g.translated += 1,
+        }
+        for (k, _) in &run.warnings {
+            *g.warnings.entry(k.clone()).or_default() += 1;
+        }
+        if run.sign_diff {
+            g.port_signedness_differs += 1;
+        }
+    }
+    let hz_names: Vec<&str> = case.hazards.iter().map(|h| h.key()).collect();
+    if let Some((stage, detail, msg)) = failure_of(&run) {
+        let sig = if hz_names.is_empty() { format!("{stage}:unclassified/{detail}") } else { format!("{stage}:{}", hz_names.join("+")) };
+        return Outcome::fail(sig, msg, input_json(&case.sv, &case.top, &case.clock, &run));
+    }
+    match run.stage {
+        Stage::SvParse(e) => Outcome::skip(format!("generator: sv-parser rejects the text ({})", first_line(&e).chars().take(60).collect::<String>())),
+        Stage::Reported(kinds) => {
+            let ks: BTreeSet<String> = kinds.into_iter().collect();
+            Outcome::skip(format!("outside the domain: translator reported unsupported {}", ks.into_iter().collect::<Vec<_>>().join(", ")))
+        }
+        Stage::OrigUnreadable(u) => {
+            *stats.inner.lock().unwrap().vsv_orig.entry(u.class()).or_default() += 1;
+            Outcome::skip(format!("vsv cannot simulate the generated text: {}", u.class()))
+        }
+        Stage::EmittedUnreadable(u) => {
+            *stats.inner.lock().unwrap().vsv_emitted.entry(u.class()).or_default() += 1;
+            Outcome::skip(format!("vsv cannot simulate the re-emitted text: {}", u.class()))
+        }
+        Stage::Ok(st) => {
+            {
+                let mut g = stats.inner.lock().unwrap();
+                g.compared_bits += st.compared_bits;
+                g.x_bits += st.x_bits;
+                if st.lively {
+                    g.lively += 1;
+                }
+            }
+            let mut classes: Vec<String> = case.classes.iter().cloned().collect();
+            if st.lively {
+                classes.push("lively-output".into());
+            }
+            if st.x_bits > 0 {
+                classes.push("original-has-x-bits".into());
+            }
+            for h in &hz_names {
+                classes.push(format!("finding-shape-passed:{h}"));
+            }
+            let nontrivial = case.procs >= 1 && case.ops >= 2;
+            Outcome::pass(hash_str(&case.sv), nontrivial, classes, case.sv)
+        }
+        _ => unreachable!(),
+    }
+}
+
+/// Reproducer of a listed finding: `{sv, top, key, clock?, reset?}`; the
+/// stimulus comes from a fixed PRNG.
+fn reproducer(payload: &Value) -> Outcome {
+    let s = |k: &str| payload.get(k).and_then(|v| v.as_str()).unwrap_or("").to_string();
+    let sv = s("sv");
+    let key = s("key");
+    let mut top = s("top");
+    if top.is_empty() {
+        top = last_module(&sv);
+    }
+    let cfg = clock_cfg_from_text(&sv);
+    let mut seed = 7u64;
+    let seed2 = std::cell::Cell::new(11u64);
+    let mut dv = |w: usize| {
+        let k = splitmix(&mut seed) % 6;
+        let bits: Vec<Bit> = (0..w).map(|_| Bit::from_bool(splitmix(&mut seed) & 1 == 1)).collect();
+        match k {
+            0 => Bv::zeros(w, false),
+            1 => Bv::zeros(w, false).not(),
+            _ => Bv::new(bits, false),
+        }
+    };
+    let mut mr = || {
+        let mut s = seed2.get();
+        let r = splitmix(&mut s) % 12 == 0;
+        seed2.set(s);
+        r
+    };
+    let run = pipeline(&sv, &top, &cfg, 24, &mut dv, &mut mr);
+    if let Some((stage, _, msg)) = failure_of(&run) {
+        // the listed key names the stage; another stage is another behaviour
+        let suffix = key.split_once(':').map(|x| x.1).unwrap_or(&key);
+        return Outcome::fail(format!("{stage}:{suffix}"), msg, input_json(&sv, &top, &cfg, &run));
+    }
+    match run.stage {
+        Stage::Ok(_) => Outcome::pass(hash_str(&sv), false, vec!["reproducer".into()], sv),
+        Stage::Reported(k) => Outcome::skip(format!("reproducer is now reported as unsupported: {k:?}")),
+        Stage::SvParse(e) => Outcome::skip(format!("reproducer does not parse: {}", first_line(&e))),
+        Stage::OrigUnreadable(u) | Stage::EmittedUnreadable(u) => Outcome::skip(format!("reproducer cannot be simulated: {}", u.class())),
+        _ => unreachable!(),
+    }
+}
+
+// ----- hand-written texts ---------------------------------------------------------------
 
 /// Clock / reset of a hand-written text, from the usual names.
 fn clock_cfg_from_text(sv: &str) -> ClockCfg {
@@ -45,10 +402,94 @@ fn last_module(sv: &str) -> String {
     name
 }
 
-/// Developer probe (not a check): the whole pipeline on hand-written files.
-fn probe(path: &str) {
+fn on_thread<T: Send + 'static>(f: impl FnOnce() -> T + Send + 'static) -> Option<T> {
+    std::thread::Builder::new().stack_size(16 << 20).spawn(f).ok()?.join().ok()
+}
+
+/// Developer aids (not checks):
+/// `VERIF_C22_PROBE=<file|dir>` runs the pipeline on hand-written texts;
+/// `VERIF_C22_MKREPRO=<dir>` writes `<name>.veryl`, `<name>.diag.txt` and the
+/// replay file `<name>.json` next to every `<name>.sv` (first line of the
+/// text: `// key: <signature>`);
+/// `VERIF_C22_DUMP=<n>` prints n generated cases.
+fn dev_modes() -> bool {
+    if let Ok(p) = std::env::var("VERIF_C22_PROBE") {
+        let verbose = std::env::var("VERIF_C22_VERBOSE").is_ok();
+        for f in sv_files(&p) {
+            let sv = std::fs::read_to_string(&f).unwrap();
+            let name = f.file_name().unwrap().to_string_lossy().to_string();
+            let r = on_thread(move || {
+                let out = reproducer(&json!({"sv": sv, "key": "probe:probe"}));
+                match out {
+                    Outcome::Pass(_) => "ok".to_string(),
+                    Outcome::Skip(r) => format!("SKIP {r}"),
+                    Outcome::Fail(f) => {
+                        let mut s = format!("FAIL {}\n{}", f.signature, f.message);
+                        if verbose || f.signature.starts_with("behaviour") {
+                            s.push_str(&format!("\n----- veryl\n{}\n----- emitted\n{}", f.input["veryl"].as_str().unwrap_or(""), f.input["emitted_sv"].as_str().unwrap_or("")));
+                        } else {
+                            s.push_str(&format!("\n----- veryl\n{}", f.input["veryl"].as_str().unwrap_or("")));
+                        }
+                        s
+                    }
+                }
+            })
+            .unwrap_or_else(|| "PANIC".into());
+            println!("=== {name}: {r}");
+        }
+        return true;
+    }
+    if let Ok(p) = std::env::var("VERIF_C22_MKREPRO") {
+        for f in sv_files(&p) {
+            let sv = std::fs::read_to_string(&f).unwrap();
+            let key = sv.lines().next().and_then(|l| l.strip_prefix("// key:")).map(|k| k.trim().to_string()).unwrap_or_default();
+            let stem = f.with_extension("");
+            let payload = json!({"sv": sv, "key": key});
+            let p2 = payload.clone();
+            let out = on_thread(move || reproducer(&p2)).unwrap_or(Outcome::skip("panic"));
+            match out {
+                Outcome::Fail(fl) => {
+                    std::fs::write(stem.with_extension("veryl"), fl.input["veryl"].as_str().unwrap_or("")).unwrap();
+                    let mut diag = format!("signature: {}\n\n{}\n", fl.signature, fl.message);
+                    if let Some(e) = fl.input["emitted_sv"].as_str()
+                        && !e.is_empty()
+                    {
+                        diag.push_str(&format!("\n----- re-emitted SystemVerilog -----\n{e}"));
+                    }
+                    std::fs::write(stem.with_extension("diag.txt"), diag).unwrap();
+                    let replay = json!({"property": "C22", "sub": "reproducer", "payload": payload, "signature": fl.signature});
+                    std::fs::write(stem.with_extension("json"), serde_json::to_string_pretty(&replay).unwrap() + "\n").unwrap();
+                    println!("{}: {} {}", stem.display(), fl.signature, if fl.signature == key { "(as listed)" } else { "(KEY DIFFERS)" });
+                }
+                Outcome::Pass(_) => println!("{}: passes — not a reproducer", stem.display()),
+                Outcome::Skip(r) => println!("{}: skip {r}", stem.display()),
+            }
+        }
+        return true;
+    }
+    if let Ok(n) = std::env::var("VERIF_C22_DUMP") {
+        let n: usize = n.parse().unwrap_or(3);
+        let seed: u64 = std::env::var("VERIF_SEED").ok().and_then(|s| s.parse().ok()).unwrap_or(1);
+        let shape = std::env::var("VERIF_C22_SHAPE").ok().and_then(|k| Hz::from_key(&k));
+        for i in 0..n {
+            let mut s = seed.wrapping_mul(1_000_003).wrapping_add(i as u64);
+            let ch: Vec<u32> = (0..8000).map(|_| splitmix(&mut s) as u32).collect();
+            let mut d = Draw::new(ch);
+            let mut allow = BTreeSet::new();
+            if let Some(h) = shape {
+                allow.insert(h);
+            }
+            let c = svgen::gen_case(&mut d, &allow);
+            println!("// ---- case {i}: top={} ops={} procs={} hazards={:?} draws={}\n{}", c.top, c.ops, c.procs, c.hazards, d.used(), c.sv);
+        }
+        return true;
+    }
+    false
+}
+
+fn sv_files(p: &str) -> Vec<std::path::PathBuf> {
     let mut files = vec![];
-    let p = std::path::Path::new(path);
+    let p = std::path::Path::new(p);
     if p.is_dir() {
         for e in std::fs::read_dir(p).unwrap().flatten() {
             if e.path().extension().is_some_and(|x| x == "sv") {
@@ -59,125 +500,46 @@ fn probe(path: &str) {
     } else {
         files.push(p.to_path_buf());
     }
-    let verbose = std::env::var("VERIF_C22_VERBOSE").is_ok();
-    for f in files {
-        let sv = std::fs::read_to_string(&f).unwrap();
-        let name = f.file_name().unwrap().to_string_lossy().to_string();
-        let r = std::thread::Builder::new()
-            .stack_size(16 << 20)
-            .spawn(move || probe_one(&sv, verbose))
-            .unwrap()
-            .join()
-            .unwrap_or_else(|_| "PANIC".into());
-        println!("=== {name}: {r}");
-    }
+    files
 }
 
-fn probe_one(sv: &str, verbose: bool) -> String {
-    let top = last_module(sv);
-    let cfg = clock_cfg_from_text(sv);
-    let t = match pipe::translate(sv) {
-        Ok(t) => t,
-        Err(e) => return format!("sv-parser rejects the text: {e}"),
-    };
-    if verbose {
-        println!("----- veryl\n{}", t.veryl);
-    }
-    if !t.unsupported.is_empty() {
-        return format!("unsupported reported: {:?}", t.unsupported);
-    }
-    let b = match pipe::build(&t.veryl, &cfg.metadata()) {
-        Ok(b) => b,
-        Err(BuildErr::Parse(e)) => {
-            if !verbose {
-                println!("----- veryl\n{}", t.veryl);
-            }
-            return format!("VERYL PARSE ERROR: {}", e.lines().take(12).collect::<Vec<_>>().join("\n"));
-        }
-        Err(BuildErr::Analyze(e)) => {
-            if !verbose {
-                println!("----- veryl\n{}", t.veryl);
-            }
-            return format!("ANALYZER ERRORS: {e:#?}");
-        }
-    };
-    if verbose {
-        println!("----- emitted\n{}", b.sv);
-        println!("----- warnings {:?}", b.warnings);
-    }
-    let mut so = match Sim::from_sv(&[sv], &top) {
-        Ok(s) => s,
-        Err(u) => return format!("vsv cannot read the ORIGINAL: {u}"),
-    };
-    let mut se = match Sim::from_sv(&[&b.sv], &format!("prj_{top}")) {
-        Ok(s) => s,
-        Err(u) => {
-            println!("----- emitted\n{}", b.sv);
-            return format!("vsv cannot read the EMITTED text: {u}");
-        }
-    };
-    let po = pipe::port_specs(&so);
-    let pe = pipe::port_specs(&se);
-    let sig = |v: &[pipe::PortSpec]| v.iter().map(|p| format!("{}{}:{}{}", if p.input { "i " } else { "o " }, p.name, p.width, if p.signed { "s" } else { "" })).collect::<Vec<_>>();
-    if sig(&po) != sig(&pe) {
-        return format!("PORTS DIFFER: {:?} vs {:?}", sig(&po), sig(&pe));
-    }
-    let mut stim = Stim::default();
-    for p in &po {
-        let is_pin = cfg.clock.as_ref().is_some_and(|c| c.0 == p.name) || cfg.reset.as_ref().is_some_and(|c| c.0 == p.name);
-        if is_pin {
-            continue;
-        }
-        if p.input {
-            stim.inputs.push(p.clone());
-        } else {
-            stim.outputs.push(p.clone());
-        }
-    }
-    let mut s = 7u64;
-    for i in 0..24 {
-        let vals = stim
-            .inputs
-            .iter()
-            .map(|p| {
-                let bits: Vec<vsv::Bit> = (0..p.width)
-                    .map(|_| vsv::Bit::from_bool(splitmix(&mut s) & 1 == 1))
-                    .collect();
-                let k = splitmix(&mut s) % 6;
-                match k {
-                    0 => Bv::zeros(p.width, false),
-                    1 => Bv::zeros(p.width, false).not(),
-                    _ => Bv::new(bits, false),
-                }
-            })
-            .collect();
-        stim.steps.push((i < 2 && cfg.reset.is_some(), vals));
-    }
-    let pins = cfg.pins();
-    let ro = match pipe::run_sim(&mut so, &pins, &stim) {
-        Ok(r) => r,
-        Err(u) => return format!("vsv cannot run the ORIGINAL: {u}"),
-    };
-    let re = match pipe::run_sim(&mut se, &pins, &stim) {
-        Ok(r) => r,
-        Err(u) => return format!("vsv cannot run the EMITTED text: {u}"),
-    };
-    let (st, mm) = pipe::compare(&ro, &re, &stim.outputs);
-    if let Some(m) = mm {
-        if !verbose {
-            println!("----- veryl\n{}\n----- emitted\n{}", t.veryl, b.sv);
-        }
-        let ins: Vec<String> = stim.inputs.iter().zip(&stim.steps[m.step].1).map(|(p, v)| format!("{}={}", p.name, v)).collect();
-        return format!("MISMATCH step {} output {}: original {} emitted {}  inputs {:?}", m.step, m.output, m.orig, m.emitted, ins);
-    }
-    format!("ok (compared {} bits, {} x bits, lively={}, warnings {:?})", st.compared_bits, st.x_bits, st.lively, b.warnings.iter().map(|w| w.0.clone()).collect::<Vec<_>>())
-}
-
-pub fn run(_ctx: &Ctx) {
-    if let Ok(p) = std::env::var("VERIF_C22_PROBE") {
-        probe(&p);
+pub fn run(ctx: &Ctx) {
+    if dev_modes() {
         std::process::exit(0);
     }
-    println!("INCONCLUSIVE property=C22: check not implemented");
-    std::process::exit(2);
+    let n_main = ctx.scale(2400, 60_000);
+    let n_shapes = ctx.scale(320, 6_000);
+    let cycles = if ctx.is_quick() { 12 } else { 40 };
+    let stats = Arc::new(Stats::default());
+    ctx.run_payloads("reproducer", reproducer);
+    {
+        let stats = stats.clone();
+        ctx.run("main", CaseCfg::cases(n_main).choices(8000).stack_mb(16), move |d: &mut Draw| one_case(d, false, cycles, &stats));
+    }
+    {
+        let stats = stats.clone();
+        ctx.run("finding-shapes", CaseCfg::cases(n_shapes).choices(8000).stack_mb(16), move |d: &mut Draw| one_case(d, true, cycles, &stats));
+    }
+    {
+        let g = stats.inner.lock().unwrap();
+        ctx.note("translated_texts", json!(g.translated));
+        ctx.note("translator_reported_unsupported", json!(g.reported));
+        ctx.note("unsupported_rate", json!(if g.translated > 0 { g.reported as f64 / g.translated as f64 } else { 0.0 }));
+        ctx.note("unsupported_kinds", json!(g.reported_kinds));
+        ctx.note("finding_shapes_excluded_from_main_search", json!(g.excluded));
+        ctx.note("compared_bits", json!(g.compared_bits));
+        ctx.note("original_x_bits_not_compared", json!(g.x_bits));
+        ctx.note("cases_with_lively_output", json!(g.lively));
+        ctx.note("analyzer_warnings_on_translated_text", json!(g.warnings));
+        ctx.note("vsv_unsupported_original", json!(g.vsv_orig));
+        ctx.note("vsv_unsupported_reemitted", json!(g.vsv_emitted));
+        ctx.note("port_signedness_differs", json!(g.port_signedness_differs));
+    }
+    ctx.assume("vsv (this harness' IEEE 1800 simulator built on vbv) simulates both the original and the re-emitted text: no external simulator exists in the sandbox");
+    ctx.assume("the translated file is built in a project whose [build] clock_type / reset_type match the edge / polarity / synchronicity the original text uses");
+    ctx.assume("bits that are x/z in the simulation of the original text are not compared");
+    ctx.finish(
+        "translation_validation",
+        "generated human-style SystemVerilog (ports/params, logic/bit vectors, localparams, assign, always_comb, if/case/for, generate, functions, instances) x corner-biased stimulus; non-trivial = a process or function and >= 2 operators; distinct by text",
+    );
 }
